@@ -1144,16 +1144,39 @@ pub fn check_c15(case: &FCase, run: &Run) -> Result<(bool, Vec<String>), Violati
     }
     // --- rate limiter inside the factory: handled jobs per window
     if let Some((refill, interval, max, initial)) = case.ratelimit {
-        let starts: Vec<u64> = ev.iter().filter_map(|(t, e)| if matches!(e, FEv::Start { .. }) { Some(*t) } else { None }).collect();
+        // The limiter sits in front of the router: it bounds *admissions*. With a factory queue a job is
+        // admitted when it is handed to a worker (its start); with worker-queued routing it is admitted when
+        // the dispatch is processed and may start much later, in a burst. There the admission instant is only
+        // known to lie between the send of the dispatch and the answer of the depth probe queued right behind
+        // it, so the span between two admissions is bounded from below by send(b) - probe(a).
+        let starts: Vec<(u64, u64)> = if factory_queueing {
+            ev.iter().filter_map(|(t, e)| if matches!(e, FEv::Start { .. }) { Some((*t, *t)) } else { None }).collect()
+        } else {
+            let mut v = vec![];
+            for (id, f) in &facts {
+                // counted as admitted: the jobs that were eventually started (a job that was shed, expired or
+                // died with its worker may or may not have consumed a token: leaving it out is the sound side)
+                if *id >= 9000 || !f.sent || f.starts.is_empty() {
+                    continue;
+                }
+                let sent_t = ev.get(f.dispatched_at).map(|x| x.0);
+                let probe_t = ev.iter().find_map(|(t, e)| if matches!(e, FEv::Depth { after, .. } if *after == *id) { Some(*t) } else { None });
+                if let (Some(a), Some(b)) = (sent_t, probe_t) {
+                    v.push((a, b));
+                }
+            }
+            v.sort();
+            v
+        };
         let interval_ns = interval as u64 * 1_000_000;
         for a in 0..starts.len() {
             for b in a..starts.len() {
                 let n = (b - a + 1) as u64;
-                let span = starts[b] - starts[a];
+                let span = starts[b].0.saturating_sub(starts[a].1);
                 let periods = if interval_ns == 0 { u64::MAX } else { span / interval_ns + 2 };
                 let bound = (initial.min(max) as u64).max(max as u64).saturating_add(periods.saturating_mul(refill as u64));
                 if n > bound {
-                    return Err(viol("C15/rate-limit-exceeded", format!("{n} jobs started within {span}ns with refill {refill}/{interval}ms, max {max}, initial {initial}")));
+                    return Err(viol("C15/rate-limit-exceeded", format!("{n} jobs admitted within {span}ns with refill {refill}/{interval}ms, max {max}, initial {initial}")));
                 }
             }
         }
